@@ -174,9 +174,11 @@ fn c10_unassigned_bytes_and_cut_pushes_execute_as_invalid() {
     let mut cases = 0;
     let mut cmp = |what: String, code: Vec<u8>, reference: Vec<u8>| {
         cases += 1;
-        let (got, want) = (vm_outcome(&code), vm_outcome(&reference));
-        if got != want {
-            witness("C10", "dis.unassigned_byte_behaves_as_invalid", format!("{what}: {code:02x?}"), format!("(errors, states, visits) = {got:?}"), format!("as with INVALID in its place: {want:?}"));
+        for permissive in [false, true] {
+            let (got, want) = (vm_outcome_mode(&code, permissive), vm_outcome_mode(&reference, permissive));
+            if got != want {
+                witness("C10", "dis.unassigned_byte_behaves_as_invalid", format!("{what} (permissive={permissive}): {code:02x?}"), format!("(errors, states, visits) = {got:?}"), format!("as with INVALID in its place: {want:?}"));
+            }
         }
     };
     for b in 0..=255u8 {
